@@ -169,7 +169,7 @@ func C02(c *ev.Ctx) {
 			src = "package gen\n\n"
 			entries = entries[len(base.Entries):]
 		}
-		if usesMachine && !strings.Contains(src, "goose/machine") {
+		if usesMachine && !strings.Contains(src, "goose/machine\"") {
 			src = strings.Replace(src, "package gen\n\n", "package gen\n\nimport \"github.com/goose-lang/goose/machine\"\n\n", 1)
 		}
 		parts := strings.Split(src, "\n\n")
